@@ -60,6 +60,7 @@ type Interp struct {
 	StepProf map[*ssa.Function]int
 	predTerms map[predKey]*term.Term
 	satModel  map[int]uint64
+	curState  *State // state whose instruction is being executed (for helpers that add constraints)
 	rtPkg  *ssa.Package
 	base   map[int]Value // frozen heap after pre-init
 }
@@ -296,6 +297,7 @@ func (in *Interp) run(s *State) (extra []*State) {
 		if profileSteps {
 			in.StepProf[f.fn]++
 		}
+		in.curState = s
 		forks := in.safe(s, func() []*State { return in.step(s, th, f, instr) })
 		if s.status == Running {
 			in.afterStep(s, th)
